@@ -205,7 +205,13 @@ def main():
         elif k == 'rc_mode': ty, tv = 'rc_mode', v
         else: fail('internal: fact %s' % k)
         L.append('Definition fact_%s : %s := %s.' % (k, ty, tv))
-    write_if_changed('MergeAppFacts.v', '\n'.join(L) + '\n')
+    text = '\n'.join(L) + '\n'
+    alt = os.environ.get('C08_GEN_DIR')          # private build of the C08 closure (see harness/props/c08.py: build)
+    if alt:
+        os.makedirs(alt, exist_ok=True)
+        with open(os.path.join(alt, 'MergeAppFacts.v'), 'w') as f: f.write(text)
+    else:
+        write_if_changed('MergeAppFacts.v', text)
 
 
 if __name__ == '__main__':
